@@ -121,6 +121,7 @@ func (g *c11Gen) piece() c11Piece {
 		return c11Piece{name: "strings/bytes callbacks", imports: []string{"strings", "bytes"}, body: body}
 	case 3:
 		var decl, mk string
+		mut := "v.X += 1000"
 		switch r.Intn(4) {
 		case 0:
 			decl = fmt.Sprintf("type %s struct { X, Y int }\nfunc (p %s) String() string { return fmt.Sprintf(\"(%%d;%%d)\", p.X, p.Y) }", T("St"), T("St"))
@@ -131,30 +132,40 @@ func (g *c11Gen) piece() c11Piece {
 		case 2:
 			decl = fmt.Sprintf("type %s int\nfunc (p %s) String() string { return \"#\" + strconv.Itoa(int(p)*2) }", T("St"), T("St"))
 			mk = fmt.Sprintf("%s(%d)", T("St"), r.Intn(1000))
+			mut = "v += 7"
 		default:
 			decl = fmt.Sprintf("type %s []string\nfunc (p %s) String() string { return strings.Join(p, \"+\") }", T("St"), T("St"))
 			mk = fmt.Sprintf("%s{%q, %q}", T("St"), g.word(), g.word())
+			mut = "v[0] = \"changed\""
 		}
 		body := fmt.Sprintf("v := %s\nrec(%d, iopStringer(v))\nvar s fmt.Stringer = v\nrec(%d, s.String(), iopStringer(s))\n", mk, g.t(), g.t())
+		// the interface value holds a copy of a non-pointer value: later changes of the variable must not show through it
+		body += fmt.Sprintf("%s\nrec(%d, s.String(), iopStringer(s), iopStringer(v))\n", mut, g.t())
+		body += fmt.Sprintf("arr := []fmt.Stringer{v, s}\n%s\nrec(%d, iopStringer(arr[0]), iopStringer(arr[1]), iopStringer(v))\n", mut, g.t())
 		body += fmt.Sprintf("f := func(x fmt.Stringer) string { return \"[\" + x.String() + \"]\" }\nrec(%d, f(v), f(s))\n", g.t())
 		return c11Piece{name: "fmt.Stringer proxy", decls: []string{decl}, imports: []string{"fmt", "strconv", "strings"}, body: body}
 	case 4:
-		var decl, mk string
+		var decl, mk, mk2 string
 		switch r.Intn(4) {
 		case 0:
 			decl = fmt.Sprintf("type %s struct { Code int }\nfunc (e *%s) Error() string { return \"err\" + strconv.Itoa(e.Code) }", T("Er"), T("Er"))
 			mk = fmt.Sprintf("&%s{%d}", T("Er"), r.Intn(100))
+			mk2 = fmt.Sprintf("&%s{%d}", T("Er"), 100+r.Intn(100))
 		case 1:
 			decl = fmt.Sprintf("type %s struct { Code int; Msg string }\nfunc (e %s) Error() string { return e.Msg + strconv.Itoa(e.Code) }", T("Er"), T("Er"))
 			mk = fmt.Sprintf("%s{%d, %q}", T("Er"), r.Intn(100), g.word())
+			mk2 = fmt.Sprintf("%s{%d, %q}", T("Er"), 100+r.Intn(100), g.word())
 		case 2:
 			decl = fmt.Sprintf("type %s int\nfunc (e %s) Error() string { return \"verr\" + strconv.Itoa(int(e)) }", T("Er"), T("Er"))
 			mk = fmt.Sprintf("%s(%d)", T("Er"), r.Intn(100))
+			mk2 = fmt.Sprintf("%s(%d)", T("Er"), 100+r.Intn(100))
 		default:
 			decl = fmt.Sprintf("type %s string\nfunc (e %s) Error() string { return \"serr:\" + string(e) }", T("Er"), T("Er"))
 			mk = fmt.Sprintf("%s(%q)", T("Er"), g.word())
+			mk2 = fmt.Sprintf("%s(%q)", T("Er"), g.word()+"2")
 		}
 		body := fmt.Sprintf("v := %s\nrec(%d, iopError(v))\nvar e error = v\nrec(%d, e.Error(), errors.Unwrap(e) == nil, iopError(e))\n", mk, g.t(), g.t())
+		body += fmt.Sprintf("v0 := v\nv = %s\nrec(%d, e.Error(), iopError(e), iopError(v))\nv = v0\n", mk2, g.t())
 		body += fmt.Sprintf("fail := func(n int) (int, error) { if n%%2 == 0 { return n, v }; return n, nil }\n_, e1 := fail(2)\n_, e2 := fail(3)\nrec(%d, e1 != nil, e2 == nil, e1.Error())\n", g.t())
 		return c11Piece{name: "error proxy", decls: []string{decl}, imports: []string{"errors", "strconv"}, body: body}
 	case 5:
